@@ -127,7 +127,10 @@ def check_grid(r) -> list[Fail]:
     r2 = r1 + ext
     pad = r["padding"]
     try:
-        g = rectangular_grid(r1, r2, padding=pad, spacing=s)
+        dt = r.get("dtype")
+        g = rectangular_grid(r1, r2, padding=pad, spacing=s, **({} if dt is None else {"dtype": dt}))
+        if g.dtype != np.dtype(dt or "float32"):
+            return [Fail("grid-dtype-wrong", f"asked {dt or 'default float32'}, got {g.dtype}")]
     except Exception as e:
         return [Fail(f"grid-raises:{exc_sig(e) or type(e).__name__}", f"r1={r1} r2={r2} pad={pad} spacing={s}: {e!r}"[:300])]
     fails: list[Fail] = []
@@ -137,7 +140,7 @@ def check_grid(r) -> list[Fail]:
     g64 = g.astype(np.float64)
     lo, hi = r1 - pad, r2 + pad
     mag = float(max(1.0, np.max(np.abs(lo)), np.max(np.abs(hi))))
-    e32 = 6e-7 * mag * 8
+    e32 = (6e-7 if g.dtype == np.float32 else 1e-15) * mag * 8
     axes = [np.unique(g64[:, k]) for k in range(3)]
     ns = [len(a) for a in axes]
     if ns[0] * ns[1] * ns[2] != len(g):
@@ -172,6 +175,7 @@ def strat_grid(tier):
     return st.fixed_dictionaries({
         "lo": st.lists(f, min_size=3, max_size=3), "ext": st.lists(st.one_of(st.floats(0, 12, width=32), st.sampled_from([0.0, 1.0, 2.5])), min_size=3, max_size=3),
         "padding": st.sampled_from([0.0, 0.5, 2.0, 1.25]), "spacing": st.sampled_from([1.0, 0.5, 0.7, 2.0, 30.0, 0.25]), "exact_multiple": st.booleans(),
+        "dtype": st.sampled_from([None, None, "float32", "float64"]),
     })
 
 
@@ -430,7 +434,7 @@ def enum_native(tier, shard, nshards):
 LEGS = [
     Leg("kernels", check_kernels, classify_kernels, strategy=strat_kernels, n={"quick": 4000, "thorough": 80000}, shards={"quick": 16, "thorough": 32},
         rule="12 kernel names (generic, f and d variants of cdist22/cdist32 eu/eu2) of the shipped extension x float32/float64 x 5 memory layouts per argument x shapes 0..40 / 1..6 x 4 scales; non-trivial = both point sets non-empty"),
-    Leg("grid", check_grid, lambda r: (True, ["exact_multiple" if r["exact_multiple"] else "general", f"spacing={r['spacing']}"]), strategy=strat_grid, n={"quick": 1500, "thorough": 30000}, shards={"quick": 16, "thorough": 32},
+    Leg("grid", check_grid, lambda r: (True, ["exact_multiple" if r["exact_multiple"] else "general", f"spacing={r['spacing']}", f"dtype={r.get('dtype')}"]), strategy=strat_grid, n={"quick": 1500, "thorough": 30000}, shards={"quick": 16, "thorough": 32},
         rule="boxes with r1<=r2 (extent 0..12 per axis, incl. 0 and exact multiples of the spacing), padding in {0,0.5,1.25,2}, spacing in {0.25,0.5,0.7,1,2,30}"),
     Leg("nearest_prune", check_nearest, classify_nearest, strategy=strat_desc, n={"quick": 500, "thorough": 10000}, shards={"quick": 16, "thorough": 32},
         rule="random ensembles (2-12 atoms, 1-4 conformers) and grids around them, cut-offs {0.5,1,2,3.5}, eps {0,0.1,0.5,1}; nearest_atom_index for the ensemble and for a single geometry with the cut-off passed; prune for both"),
